@@ -859,9 +859,6 @@ def sample(prop, case, obs):
 
 def partial_clauses(prop):
     return [
-        "acceptance is proved for the relations of every valid tree in every row order (C13_relation_of_tree, "
-        "C13_row_order); that every row list passing the boolean test `presents_tree` of Spec/PC13.v is accepted has no "
-        "theorem - that clause of prop_rel is only evaluated on every implementation output",
         "pandas / polars / list entry points are one model function on a row list; the frame glue is covered by the "
         "correspondence only",
     ]
